@@ -47,6 +47,38 @@ def fail(sig, what, rep):
 PROPER11 = [("1", S.C1), ("2", S.C2), ("222", S.D2), ("4", S.C4), ("422", S.D4), ("3", S.C3),
             ("32", S.D3), ("6", S.C6), ("622", S.D6), ("23", S.T), ("432", S.O)]
 EXTRA_SETTINGS = [("211", S.C2x), ("121", S.C2y), ("321", S.D3x), ("312", S.D3y)]
+# nearest-neighbour searches must not crash on samples with NaN / inf rows (a defective sampler): such rows are reported
+# once per search and moved to distinct far-away points, so that indices and shapes of the other rows are kept
+_cKDTree = cKDTree
+
+
+def _sanitise(a, base):
+    a = np.array(a, dtype=float, copy=True)
+    if a.ndim != 2 or a.size == 0:
+        return a, 0
+    bad = ~np.all(np.isfinite(a), axis=1)
+    for k in np.flatnonzero(bad):
+        a[k] = base + 10.0 * (k + 1)
+    return a, int(bad.sum())
+
+
+class _SafeTree:
+    def __init__(self, a):
+        a, nbad = _sanitise(a, 1e3)
+        if nbad:
+            fails.append({"sig": "finite:nearest-neighbour-input", "what": f"{nbad} of {len(a)} sampled rotations / directions have NaN or inf "
+                          "components", "replay": {"n_bad": nbad, "n": int(len(a))}})
+        self.t = _cKDTree(a)
+
+    def query(self, x, *args, **kw):
+        x, _ = _sanitise(x, -1e3)
+        return self.t.query(x, *args, **kw)
+
+
+def cKDTree(a):  # noqa: F811
+    return _SafeTree(a)
+
+
 METHODS = ["cubochoric", "haar_euler", "quaternion"]
 SYSTEMS = ["triclinic", "monoclinic", "orthorhombic", "tetragonal", "cubic", "trigonal", "hexagonal"]
 S2M = ["uv", "equal_area", "normalized_cube", "spherified_cube_edge", "spherified_cube_corner",
